@@ -368,7 +368,7 @@ func normalizeHeaderValue(ov []byte) (nv []byte) {
 		} else {
 			lineStart = false
 		}
-		if write == 0 && c == ' ' {
+		if write == 0 && (c == ' ' || c == '\t') {
 			// blanks in front of the value are not part of it (and would be skipped after the
 			// colon when the line is scanned again)
 			continue
